@@ -38,6 +38,7 @@ func TestMain(m *testing.M) {
 	}
 	if os.Getenv("VERIF_KEEP_LOGS") == "" && !coordinator {
 		if null, err := os.OpenFile(os.DevNull, os.O_WRONLY, 0); err == nil {
+			realStderr = os.Stderr // keep it referenced: a collected *os.File closes descriptor 2
 			os.Stderr = null
 		}
 	}
@@ -45,6 +46,8 @@ func TestMain(m *testing.M) {
 	stats.Flush()
 	os.Exit(code)
 }
+
+var realStderr *os.File
 
 func envInt(name string, def int) int {
 	if v, err := strconv.Atoi(os.Getenv(name)); err == nil {
